@@ -64,13 +64,31 @@ def shard_run(binary, sub, cases, d, tag, extra=(), nshards=None, timeout=3000):
     parts = [cases[i::n] for i in range(n)]
 
     def work(i):
-        cp = os.path.join(d, "%s-in-%d.ndjson" % (tag, i))
-        op = os.path.join(d, "%s-out-%d.ndjson" % (tag, i))
-        vlib.write_ndjson(cp, parts[i])
-        s = vlib.harness(binary, sub, "--cases", cp, "--out", op, *extra, timeout=timeout, check=False)
-        if "rc" in s:
-            return op, s
-        return op, None
+        """run one shard; a case whose call does not return ends the process (summary hung=1): record it
+        and continue with the cases after it in a fresh process"""
+        todo = list(parts[i])
+        op_all = os.path.join(d, "%s-out-%d.ndjson" % (tag, i))
+        open(op_all, "w").close()
+        rounds = 0
+        while todo:
+            cp = os.path.join(d, "%s-in-%d-%d.ndjson" % (tag, i, rounds))
+            op = os.path.join(d, "%s-out-%d-%d.ndjson" % (tag, i, rounds))
+            vlib.write_ndjson(cp, todo)
+            s = vlib.harness(binary, sub, "--cases", cp, "--out", op, *extra, timeout=timeout, check=False)
+            if os.path.exists(op):
+                with open(op) as fi, open(op_all, "a") as fo:
+                    fo.write(fi.read())
+            if "rc" in s:
+                return op_all, s
+            if s.get("hung"):
+                done = s["cases"]
+                todo = todo[done:]
+                rounds += 1
+                if rounds > 20:
+                    return op_all, {"rc": -1, "stderr": "more than 20 hanging cases in one shard", "stdout": ""}
+                continue
+            break
+        return op_all, None
     recs, faults = {}, []
     with cf.ThreadPoolExecutor(n) as ex:
         for op, fault in ex.map(work, range(n)):
@@ -90,10 +108,22 @@ def hdr_len(o):
     return 15 if o["size"] else 7
 
 
+def descriptor_of(o):
+    """the FLG and BD bytes and the size field that the options imply"""
+    flg = 64 + 32 + (16 if o["bcs"] else 0) + (8 if o["size"] else 0) + (4 if o["ccs"] else 0)
+    return flg, 16 * o["code"], o["size"]
+
+
 def writer_events(w):
     """wrun record -> Writer_Trace events"""
     o = w["opts"]
-    ev = [{"ev": "wnew", "case": w["case"], "conc": 1 if o["conc"] == 1 else 2, "bcs": o["bcs"], "hdr": hdr_len(o)}]
+    flg, bd, csize = descriptor_of(o)
+    ev = [{"ev": "wnew", "case": w["case"], "conc": 1 if o["conc"] == 1 else 2, "bcs": o["bcs"] and not o["legacy"], "hdr": hdr_len(o),
+           "flg": flg, "bd": bd, "csize": csize}]
+    if w.get("hung"):
+        ev.append({"ev": "wend", "case": w["case"], "seg": 1, "status": "hung", "same": False, "blocks": [], "contentLen": 0,
+                   "consumed": 0, "segLen": 0, "flg": 0, "bd": 0, "csize": [], "clean": False})
+        return ev
     prev_calls, prev_sink = 0, 0
     for i, c in enumerate(w["calls"]):
         dcalls, dsink = c["calls"] - prev_calls, c["sink"] - prev_sink
@@ -105,7 +135,7 @@ def writer_events(w):
     for k, f in enumerate(w["frames"]):
         ev.append({"ev": "wend", "case": w["case"], "seg": k + 1, "status": f["status"], "same": f["same"],
                    "blocks": [b["dec"] for b in f["blocks"]], "contentLen": f["contentLen"], "consumed": f["consumed"],
-                   "segLen": f["segLen"]})
+                   "segLen": f["segLen"], "flg": f["flg"], "bd": f["bd"], "csize": f["csize"], "clean": w["panicked"] == ""})
     return ev
 
 
@@ -143,11 +173,13 @@ def emit_events(w, noflush=True):
 
 def reader_events(r, total, linked=False):
     """read record of a VALID frame -> Reader_Trace events"""
-    ev = [{"ev": "rnew", "case": r["case"], "total": total, "conc": r["cfg"]["conc"], "linked": linked}]
+    ev = [{"ev": "rnew", "case": r["case"], "total": total, "conc": r["cfg"]["conc"], "linked": linked,
+           "declared": r.get("declared", [0, 0, 0, 0])}]
     if "log" in r:
         for c in r["log"]:
             ev.append(dict(c, ev="rcall", case=r["case"]))
     else:
         ev.append({"ev": "rall", "case": r["case"], "n": r["deliveredLen"], "err": "eof" if r["outcome"] == "clean" else r["err"]})
-    ev.append({"ev": "rend", "case": r["case"], "same": r.get("sameAsInput", False)})
+    ev.append({"ev": "rend", "case": r["case"], "same": r.get("sameAsInput", False),
+               "prefixok": r.get("prefixOfContent", True), "clean": r["outcome"] in ("clean", "error")})
     return ev
